@@ -434,6 +434,8 @@ def _evaluate_single(node, context, types=None):
     if not isinstance(rval, types or Selector):
         raise node.location.syntax_error(
             "Expected a single selector here, not a sequence"
+            if types is None
+            else "Expected a variable or function name here"
         )
     return rval
 
@@ -479,7 +481,9 @@ def make_nested_imm(node, parent, child, context):
 @evaluate.register_action("X : X")
 def make_class(node, element, tag, context):
     element = (
-        evaluate(element, context=context) if element else Element(name=None)
+        _evaluate_single(element, context=context, types=Element)
+        if element
+        else Element(name=None)
     )
     tag = value_evaluate(tag)
     return element.clone(category=tag)
